@@ -175,7 +175,7 @@ func c04RoundTrips(c *Ctx) {
 					ok = false
 				}
 			}()
-			w.cpu.Step()
+			w.liveStep()
 		}()
 		return ok
 	}
@@ -340,7 +340,7 @@ func c04TaskSwitch(c *Ctx) {
 						var pan interface{}
 						func() {
 							defer func() { pan = recover() }()
-							w.cpu.Step()
+							w.liveStep()
 						}()
 						n++
 						got := fromCPU(&w.cpu)
